@@ -3,6 +3,7 @@
    implementation differ · 3 the Coq specification disagrees with the Python oracle. *)
 From Coq Require Import String Ascii.
 Require Import Hdl21.Base.PyInt Hdl21.Spec.SimSpec Hdl21.Model.SimExport Hdl21.Corr.C03.
+Require Import Hdl21.Base.Dec Hdl21.Model.C17Float.
 
 (* ---- equality of abstract Sims (numbers by value) ---- *)
 Definition num_eqb (a b : num) : bool :=
@@ -155,8 +156,15 @@ Definition chk_main (c : main_case) : Z :=
           else if negb (spec_all (frel_tree t) intended out) then 2     (* ... and is what the tree's float() returns for that value *)
           else if negb (forall2b sim_eqb intended rb) then 2
           else match export_all rb, out with
-               | Ok mo, Some io => if forall2b (out_eqb t) mo io then 0 else 2
-               | Error _, None => 0
+               | Ok mo, Some io =>
+                   if forall2b (out_eqb t) mo io then
+                     (* the exporter with COMPUTED float fields (Model/C17Float.v, round_dec): bit for bit *)
+                     match export_all_c round_dec rb with
+                     | Ok co => if forall2b (out_eqb []) co io then 0 else 2
+                     | Error _ => 2
+                     end
+                   else 2
+               | Error _, None => match export_all_c round_dec rb with Error _ => 0 | Ok _ => 2 end
                | _, _ => 2
                end
       end
@@ -167,11 +175,43 @@ Definition chk_round (c : main_case) : Z :=
   let '(_, _, _, t) := c in
   zlen (filter (fun x => let '(m, e, d) := x in negb (nearest_double m e d)) t).
 
+(* both in one pass over a case file (parsing the cases dominates the run time): code = chk_main + 4 * chk_round *)
+Definition chk_both (c : main_case) : Z := chk_main c + 4 * chk_round c.
+
 (* ---- spec validation: nearest_double against fractions.Fraction / float() of CPython ---- *)
 Definition near_case := (Z * Z * dbl * bool)%type.
 Definition chk_near (c : near_case) : Z :=
-  let '(m, e, d, expect) := c in if Bool.eqb (nearest_double m e d) expect then 0 else 3.
+  let '(m, e, d, expect) := c in
+  (* round_dbl is evaluated on the correctly rounded double only: the neighbours differ from it *)
+  if Bool.eqb (nearest_double m e d) expect && (if expect then dbl_eqb (round_dbl m e) d else true) then 0 else 3.
 
 (* ---- spec validation: the name generator against f"Analysis{n}" ---- *)
 Definition chk_autoname (c : N * string) : Z :=
   if String.eqb (auto_name (fst c)) (snd c) then 0 else 3.
+
+(* ---- float path (strengthening round): hdl21.sim.proto.export_float on one Prefixed (number nm*10^ne, prefix pe).
+   Observed: the Decimal that Prefixed.__float__ hands to float() (self.scale(Prefix.UNIT).number: sign, coefficient,
+   exponent) and the double export_float returns (None: it raised).
+   1: the double is not the nearest double of the prefixed value (the property);
+   2: the Decimal differs, digit for digit, from the model's (Model/C17Float.v: unit_number_ctx None), or the double is not
+      the computed rounding (round_dec) of the model's Decimal. *)
+Definition fpath_case := (Z * Z * Z * (bool * Z * Z) * option dbl)%type.
+Definition chk_fpath (c : fpath_case) : Z :=
+  let '(nm, ne, pe, (sg, co, ex), r) := c in
+  match r with
+  | None => 1
+  | Some d =>
+      if negb (nearest_double nm (ne + pe) d) then 1
+      else
+        let u := unit_number_ctx None (num_pfx nm ne pe) in
+        if Bool.eqb sg (dsign u) && (co =? Z.of_N (dcoef u)) && (ex =? dexp u) && dbl_eqb (round_dec u) d then 0 else 2
+  end.
+(* diagnosis: the observed double is what a correctly rounding float() returns for the product evaluated in 28 digits *)
+Definition fpath_ctx28 (c : fpath_case) : Z :=
+  let '(nm, ne, pe, _, r) := c in
+  match r with
+  | Some d => let u := unit_number_ctx (Some 28) (num_pfx nm ne pe) in
+              if negb (nearest_double nm (ne + pe) d) && nearest_double (dint u) (dexp u) d then 1 else 0
+  | None => 0
+  end.
+Definition chk_fpath_both (c : fpath_case) : Z := chk_fpath c + 4 * fpath_ctx28 c.
